@@ -19,7 +19,7 @@ from .common import iter_stores, reaching_assignments, self_attr_of
 
 EXPLANATION = (
     "R1 both directions end in a two-sided clamp: __call__ to the internal box (self.lb, self.ub), inverse_transf to the original box "
-    "(must-tag dataflow over every return). R2 algebra on the lambdas defining g / ginv (translated to sympy terms; maskindex(v, m) is v on the "
+    "(must-tag dataflow over every return). R5 the masking helper is 'copy, then 0 on ~mask' or np.where(mask, v, 0), never v * mask (inf * 0 = NaN). R2 algebra on the lambdas defining g / ginv (translated to sympy terms; maskindex(v, m) is v on the "
     "coordinates selected by m): z(x) = (x - mu)/gamma on ~log, zlog(x) = (log(|x| + [x = 0]) - mu)/gamma on log, with complementary masks "
     "shared by g and ginv; ginv(g(x)) = x on the linear branch and, for x > 0, on the log branch; mu, gamma = midpoint, half-width of the "
     "(internal) plausible bounds so that g(plb) = -1, g(pub) = +1 and the slope 1/gamma resp. 1/(gamma x) is positive under the dominating "
@@ -28,6 +28,79 @@ EXPLANATION = (
     "nonlinear_scaling is off. R4 integer spellings are cast to float before the in-place log stores (shared with C08-R3). The round-trip "
     "accuracy 1e-9 and behaviour 'slightly outside' the box as numbers are not decided."
 )
+
+
+def _strip_shape(e):
+    """mask expression with reshapes removed: (name, inverted)"""
+    inv = False
+    while True:
+        if isinstance(e, ast.UnaryOp) and isinstance(e.op, (ast.Invert, ast.Not)):
+            inv, e = not inv, e.operand
+        elif isinstance(e, ast.Call) and call_name(e) in ("np.invert", "np.logical_not") and e.args:
+            inv, e = not inv, e.args[0]
+        elif isinstance(e, ast.Call) and isinstance(e.func, ast.Attribute) and e.func.attr in ("flatten", "ravel", "reshape", "squeeze", "astype", "copy"):
+            e = e.func.value
+        elif isinstance(e, ast.Call) and call_name(e) in ("np.ravel", "np.squeeze", "np.atleast_1d", "np.atleast_2d", "np.asarray", "np.broadcast_to", "np.reshape") and e.args:
+            e = e.args[0]
+        else:
+            break
+    return (e.id if isinstance(e, ast.Name) else None), inv
+
+
+def _mask_helper_rule(ctx, prog, T):
+    """maskindex(v, m) must be v on the coordinates selected by m and exactly 0 elsewhere for EVERY v, including
+    non-finite entries (the bounds may be +-inf, and exp() overflows to inf): v * m is NaN there (inf * 0)."""
+    helpers = set()
+    for fn in prog.functions():
+        if fn.cls is T:
+            for call, targets in prog.calls_in(fn):
+                if canon(call.func) == "maskindex":
+                    helpers |= {t for t in targets if hasattr(t, "node")}
+    if not helpers:
+        ctx.missing(T.find_method("__init__") or next(iter(prog.functions())), "masking helper maskindex called by the transformer")
+        return
+    for h in sorted(helpers, key=lambda f: f.qualname):
+        ps = h.params
+        if len(ps) != 2:
+            ctx.fail(h, h.node, "the masking helper does not take (vector, mask)", construct="mask helper signature")
+            continue
+        vec, mask = ps
+        rets = [n for n in ast.walk(h.node) if isinstance(n, ast.Return) and n.value is not None]
+        copies, zero_stores, other_stores = {}, [], []
+        for t, v, st, kind in iter_stores(h.node):
+            if isinstance(t, ast.Name) and kind == "assign":
+                src = v
+                if isinstance(v, ast.Call) and ((isinstance(v.func, ast.Attribute) and v.func.attr == "copy") or call_name(v) in ("np.copy", "np.array")):
+                    src = v.func.value if isinstance(v.func, ast.Attribute) and v.func.attr == "copy" else v.args[0]
+                    if isinstance(src, ast.Name) and src.id == vec:
+                        copies[t.id] = st
+                        continue
+                other_stores.append(st)
+            elif isinstance(t, ast.Subscript) and isinstance(t.value, ast.Name):
+                idx = t.slice.elts[-1] if isinstance(t.slice, ast.Tuple) else t.slice
+                nm, inv = _strip_shape(idx)
+                if kind == "assign" and const_num(v) == 0 and nm == mask and inv and t.value.id in copies:
+                    zero_stores.append(st)
+                else:
+                    other_stores.append(st)
+            else:
+                other_stores.append(st)
+        for r in rets:
+            v = r.value
+            mult = [n for n in ast.walk(v) if (isinstance(n, ast.BinOp) and isinstance(n.op, ast.Mult)) or (isinstance(n, ast.Call) and call_name(n) == "np.multiply")]
+            if mult:
+                ctx.fail(h, r, "the masking helper multiplies the vector by the mask: inf * 0 is NaN, so a non-finite entry on a de-selected coordinate poisons the sum of the masked pieces", construct="mask by multiplication")
+            elif isinstance(v, ast.Name) and v.id in copies and len(zero_stores) == 1 and not other_stores:
+                ctx.ok(h, r, "copy of the vector with 0 stored on the complement of the mask")
+            elif isinstance(v, ast.Call) and call_name(v) == "np.where" and len(v.args) == 3:
+                nm, inv = _strip_shape(v.args[0])
+                a, b = (v.args[2], v.args[1]) if inv else (v.args[1], v.args[2])
+                ok = nm == mask and isinstance(a, ast.Name) and a.id == vec and const_num(b) == 0 and not other_stores
+                ctx.check(ok, h, r, "np.where(mask, vector, 0)", "np.where does not select the vector on the mask and 0 elsewhere", construct="mask by np.where")
+            else:
+                ctx.fail(h, r, f"the masking helper returns '{canon(v)[:60]}', which is neither 'copy with 0 stored on ~mask' nor np.where(mask, vector, 0)", construct="mask helper form")
+        if not rets:
+            ctx.fail(h, h.node, "the masking helper returns nothing", construct="mask helper form")
 
 
 def check(ctx):
@@ -279,4 +352,6 @@ def _rest(ctx, prog, R, T, create):
     ctx.rule("R4", "integer-typed bounds are cast to float before the in-place log stores", floor=4)
     _dtype_rule(ctx, prog, R, include_validator=False)
     ctx.assume("exp and log are mutually inverse on positive reals; min(FMAX, .) is the identity below overflow")
-    ctx.assume("maskindex(v, m) keeps v on the coordinates selected by m and zeroes the others")
+    # ------------------------------------------------------------------ R5
+    ctx.rule("R5", "the masking helper selects by assignment (copy, then 0 stored on the complement; or np.where), never by multiplication", floor=1)
+    _mask_helper_rule(ctx, prog, T)
